@@ -54,8 +54,14 @@ def step (args : List String) : String :=
         match fields with
         | none => "bad-op"
         | some fs =>
-          let pre := preimage fs
-          Paloma.Sha256.toHex (Paloma.Sha256.sha256 (pre.map UInt8.ofNat))
+          -- the field list must be an instance of the claim type's shape (the kinds of the generated verbs):
+          -- the shape `Props/C11.lean` (`Claim.wellTyped`, `same_key_same_claim`) speaks about
+          match shapeOfVerbs c.verbs with
+          | none => "unsupported-format"
+          | some ks =>
+            if !hasShape ks fs then "bad-op" else
+            let pre := preimage fs
+            Paloma.Sha256.toHex (Paloma.Sha256.sha256 (pre.map UInt8.ofNat))
   | _ => "bad-op"
 
 /-- keeper-level consistency ops: the model's prediction is that every attestation key is the hash of
